@@ -1299,6 +1299,8 @@ func (sq *Queue) isRoot() bool {
 func (sq *Queue) TryIncAllocatedResource(alloc *resources.Resource) error {
 	// check this queue: failure stops checks if the allocation is not part of a node addition
 	if !sq.allocatedResFits(alloc) {
+		sq.RLock()
+		defer sq.RUnlock()
 		return fmt.Errorf("allocation (%v) puts queue '%s' over maximum allocation (%v), current usage (%v)",
 			alloc, sq.QueuePath, sq.maxResource, sq.allocatedResource)
 	}
@@ -1307,13 +1309,15 @@ func (sq *Queue) TryIncAllocatedResource(alloc *resources.Resource) error {
 		if err := sq.parent.TryIncAllocatedResource(alloc); err != nil {
 			// only log the warning if we get to the leaf: otherwise we could spam the log with the same message
 			// each time we return from a recursive call. Worst case (hierarchy depth-1) times.
-			if sq.isLeaf {
+			if sq.IsLeafQueue() {
+				sq.RLock()
 				log.Log(log.SchedQueue).Warn("parent queue exceeds maximum resource",
 					zap.String("leafQueue", sq.QueuePath),
 					zap.Stringer("allocationRequest", alloc),
 					zap.Stringer("queueUsage", sq.allocatedResource),
 					zap.Stringer("maxResource", sq.maxResource),
 					zap.Error(err))
+				sq.RUnlock()
 			}
 			return err
 		}
